@@ -485,6 +485,47 @@ end
     pointer to interface (`*any`) and `any`-typed map keys (outside the model). -/
 def Supported (ctx : Ctx) (J : JLayer) (v : GoVal) : Bool := v.wt ctx && v.encodable ctx J
 
+/-! ### the universe the property lists (wider than `Supported` on this tree) -/
+
+/-- every (named) basic and struct type the type mentions is registered; map keys are of
+    (named) basic type -/
+def GoTy.listed (ctx : Ctx) : GoTy → Bool
+  | .basic k => (keyOf ctx (.basic k)).isSome
+  | .named n k => (keyOf ctx (.named n k)).isSome
+  | .struct n => (keyOf ctx (.struct n)).isSome
+  | .iface => true
+  | .ptr t => t.listed ctx
+  | .slice t => t.listed ctx
+  | .map k v => k.isLeaf && k.listed ctx && v.listed ctx
+
+mutual
+/-- "a value built from registered types": booleans, numbers, strings, named basics,
+    registered structs, pointers at any depth incl. nil, slices, maps with (named) basic key
+    types, `any`-typed fields / elements / map values holding such values.  Unlike
+    `encodable` it does NOT ask that container element types and nil-pointer targets be
+    registered themselves. -/
+def GoVal.listed (ctx : Ctx) (J : JLayer) : GoVal → Bool
+  | .basic t p => t.listed ctx && J.valid t p
+  | .inil => true
+  | .nilptr t => t.listed ctx && t.strip != .iface
+  | .ptr v => !v.isINil && v.listed ctx J
+  | .slice et _ vs => et.listed ctx && vs.listed ctx J
+  | .map kt vt _ kvs => (GoTy.map kt vt).listed ctx && kvs.listedMap ctx J kt
+  | .struct n fs => (keyOf ctx (.struct n)).isSome && fs.listedFields ctx J
+def GoVals.listed (ctx : Ctx) (J : JLayer) : GoVals → Bool
+  | .nil => true
+  | .cons v r => v.listed ctx J && r.listed ctx J
+def GoKVs.listedMap (ctx : Ctx) (J : JLayer) (kt : GoTy) : GoKVs → Bool
+  | .nil => true
+  | .cons k v r => J.valid kt k && v.listed ctx J && r.listedMap ctx J kt
+def GoKVs.listedFields (ctx : Ctx) (J : JLayer) : GoKVs → Bool
+  | .nil => true
+  | .cons _ v r => v.listed ctx J && r.listedFields ctx J
+end
+
+/-- the universe of the property statement -/
+def InListedUniverse (ctx : Ctx) (J : JLayer) (v : GoVal) : Bool := v.wt ctx && v.listed ctx J
+
 /-- registry well-formedness: what `GenericRegister` enforces (a key and a type are
     registered at most once, so `m` and `rm` are inverse) plus: no type is registered under
     the empty key (the decoder dispatches on `len(v.Type) != 0` …), struct declarations
